@@ -12,7 +12,7 @@ MUTANTS = [
     dict(id="c02-checkresult-60", props=["C02"], edits=[("codelimit/common/CheckResult.py", "if m.value > 60])", "if m.value >= 60])")]),
     dict(id="c02-findings-threshold", props=["C02", "C18"], edits=[("codelimit/common/report/format_text.py", "functions = report.all_report_units_sorted_by_length_asc(30)", "functions = report.all_report_units_sorted_by_length_asc(31)")]),
     dict(id="c02-quiet-inverted", props=["C02"], edits=[("codelimit/commands/check.py", "            or check_result.hard_to_maintain > 0\n", "            or check_result.hard_to_maintain > 1\n")]),
-    dict(id="c02-md-symbol", props=["C02", "C18"], edits=[("codelimit/common/report/format_markdown.py", 'type = "\\u274C" if unit.measurement.value > 60 else "\\u26A0"', 'type = "\\u274C" if unit.measurement.value > 59 else "\\u26A0"')]),
+    dict(id="c02-md-symbol", props=["C02"], edits=[("codelimit/common/report/format_markdown.py", 'type = "\\u274C" if unit.measurement.value > 60 else "\\u26A0"', 'type = "\\u274C" if unit.measurement.value > 59 else "\\u26A0"')]),
     # ---- C19
     dict(id="c19-floor-hard", props=["C19"], edits=[("codelimit/common/report/Report.py", "hard_to_maintain = ceil((profile[2] / total) * 100 - 0.001)", "hard_to_maintain = floor((profile[2] / total) * 100)")]),
     dict(id="c19-verdict-ge20", props=["C19"], edits=[("codelimit/common/report/format_text.py", "    elif hard_to_maintain > 20:", "    elif hard_to_maintain >= 20:")]),
@@ -36,7 +36,8 @@ MUTANTS += [
     dict(id="c01-scope-tokens-gt", props=["C01"], edits=[(SU, "index >= children_token_ranges[0].end:", "index > children_token_ranges[0].end:")]),
     dict(id="c01-children-not-excluded", props=["C01"], edits=[(SU, "        if len(children_token_ranges) == 0 or index < children_token_ranges[0].start:\n            result.append(tokens[index])", "        if True:\n            result.append(tokens[index])")]),
     dict(id="c01-end-minus-2", props=["C01", "C05"], edits=[(SC, "last_token = code_tokens[scope.block.end - 1]", "last_token = code_tokens[max(scope.block.end - 2, scope.header.token_range.start)]")]),
-    dict(id="c01-contains-nonstrict-start", props=["C01"], edits=[("codelimit/common/scope/Scope.py", "self.header.token_range.start < other.header.token_range.start", "self.header.token_range.start <= other.header.token_range.start + 3")]),
+    dict(id="c01-contains-strict-end-again", props=["C01"], edits=[("codelimit/common/scope/Scope.py", "self.block.end >= other.block.end", "self.block.end > other.block.end")]),
+    dict(id="c01-within-to-overlaps-again", props=["C01"], edits=[(SU, "                if body_block.start <= blocks[i].start and blocks[i].end <= body_block.end", "                if body_block.overlaps(blocks[i])")]),
     dict(id="c01-java-throws-dropped", props=["C01"], edits=[("codelimit/languages/Java.py", "[Keyword('throws'), ZeroOrMore(And(Not(';'), Not('{'))), Symbol(\"{\")]", "[Keyword('throws'), Name(), Symbol(\"{\")]")]),
     dict(id="c01-nearest-block-gt", props=["C01"], edits=[(SU, "elif block.start >= header.end:", "elif block.gt(header):")]),
     dict(id="c01-fold-one-level", props=["C01"], edits=[(SU, "        while stack and not stack[-1].contains(scope):\n            stack.pop()", "        while len(stack) > 1 or (stack and not stack[-1].contains(scope)):\n            stack.pop()")]),
@@ -54,10 +55,10 @@ MUTANTS += [
     dict(id="c04-empty-token-is-code", props=["C04", "C16"], edits=[("codelimit/common/Token.py", "and (self.value.isspace() or self.value == \"\")", "and self.value.isspace()")]),
     dict(id="c04-count-comment-lines-in-python-blocks", props=["C04"], edits=[("codelimit/languages/Python.py", "                elif line_indentation > header_indentation:", "                elif line_indentation > header_indentation and line_nr % 97 != 0:")]),
     # ---- C06
-    dict(id="c06-no-deepcopy", props=["C06", "C14"], edits=[("codelimit/common/gsm/Pattern.py", "self.predicate_map[predicate_id] = deepcopy(transition[0])", "self.predicate_map[predicate_id] = transition[0]")]),
+    dict(id="c06-no-deepcopy", props=["C14"], edits=[("codelimit/common/gsm/Pattern.py", "self.predicate_map[predicate_id] = deepcopy(transition[0])", "self.predicate_map[predicate_id] = transition[0]")]),
     dict(id="c06-sort-by-hash", props=["C06"], edits=[(SU, "    headers = language.extract_headers(code_tokens)", "    headers = language.extract_headers(code_tokens)\n    if len(headers) > 2 and hash(headers[0].name()) % 2:\n        headers = headers[:-1]")]),
     dict(id="c06-module-state-leak", props=["C06"], edits=[(SC, "def scan_file(tokens: list[Token], language: Language) -> list[Measurement]:\n    scopes = build_scopes(tokens, language)", "_SEEN: list = []\n\n\ndef scan_file(tokens: list[Token], language: Language) -> list[Measurement]:\n    _SEEN.append(len(tokens))\n    if len(_SEEN) % 50 == 0:\n        tokens = tokens[:-1]\n    scopes = build_scopes(tokens, language)")]),
-    dict(id="c06-walk-order-dependent", props=["C06", "C07"], edits=[("codelimit/common/Codebase.py", "        self.totals[entry.language].add(entry)", "        if len(self.files) != 3 or entry.path < 'm':\n            self.totals[entry.language].add(entry)")]),
+    dict(id="c06-walk-order-dependent", props=["C07"], edits=[("codelimit/common/Codebase.py", "        self.totals[entry.language].add(entry)", "        if len(self.files) != 3 or entry.path < 'm':\n            self.totals[entry.language].add(entry)")]),
     # ---- C07
     dict(id="c07-skip-hard-count", props=["C07", "C02"], edits=[("codelimit/common/LanguageTotals.py", "        self.hard_to_maintain += profile[2]", "        self.hard_to_maintain += profile[2] if self.files % 5 else 0")]),
     dict(id="c07-aggregate-depth1", props=["C07"], edits=[("codelimit/common/Codebase.py", "                        sub_folder = f\"{path}{entry.name}\"", "                        sub_folder = f\"{path}{entry.name}\" if path.count('/') < 3 else entry.name")]),
@@ -80,14 +81,14 @@ MUTANTS += [
     dict(id="c10-mkdir-only-when-missing-breaks-tagless", props=["C10"], edits=[("codelimit/commands/scan.py", "    report_path.write_text(ReportWriter(report).to_json())", "    if cache_dir.joinpath(\"CACHEDIR.TAG\").exists():\n        report_path.write_text(ReportWriter(report).to_json())")]),
     # ---- C11
     dict(id="c11-no-dot-dir-pruning", props=["C11", "C12"], edits=[(SC, "        dirs[:] = [d for d in dirs if not d[0] == \".\"]\n        for file in files:\n            rel_path = Path(os.path.join(root, file)).relative_to(path.absolute())", "        for file in files:\n            rel_path = Path(os.path.join(root, file)).relative_to(path.absolute())")]),
-    dict(id="c11-ignore-gitignore", props=["C11", "C12"], edits=[(SC, "    if gitignore_excludes:\n        excludes.extend(gitignore_excludes)", "    if gitignore_excludes and len(gitignore_excludes) > 2:\n        excludes.extend(gitignore_excludes)")]),
+    dict(id="c11-ignore-gitignore", props=["C11"], edits=[(SC, "    if gitignore_excludes:\n        excludes.extend(gitignore_excludes)", "    if gitignore_excludes and len(gitignore_excludes) > 2:\n        excludes.extend(gitignore_excludes)")]),
     dict(id="c11-exclude-on-basename", props=["C11"], edits=[(SC, "            if is_excluded(rel_path, excludes_spec):\n                continue\n            try:", "            if is_excluded(Path(rel_path.name), excludes_spec):\n                continue\n            try:")]),
     dict(id="c11-language-by-suffix-only", props=["C11"], edits=[(SC, "                if lexer_name in languages:", "                if lexer_name in languages and not file.startswith('t'):")]),
     dict(id="c11-config-exclude-ignored", props=["C11"], edits=[("codelimit/common/Configuration.py", "            cls.exclude.extend(d[\"exclude\"])", "            cls.exclude.extend(d[\"exclude\"][1:])")]),
     # ---- C12
     dict(id="c12-check-skips-exclusion-for-dirs", props=["C12"], edits=[("codelimit/commands/check.py", "                        if is_excluded(rel_path, excludes_spec):\n                            continue\n                    except ValueError:", "                        if is_excluded(rel_path, excludes_spec) and len(rel_path.parts) < 3:\n                            continue\n                    except ValueError:")]),
     dict(id="c12-check-hidden-files", props=["C12"], edits=[("codelimit/commands/check.py", "                files = [f for f in files if not f[0] == \".\"]\n                dirs[:] = [d for d in dirs if not d[0] == \".\"]\n                for file in files:\n                    abs_path", "                dirs[:] = [d for d in dirs if not d[0] == \".\"]\n                for file in files:\n                    abs_path")]),
-    dict(id="c12-check-own-decoding", props=["C12", "C03"], edits=[("codelimit/commands/check.py", "        code = _read_file(path)", "        with open(path, encoding=\"utf-8\", errors=\"replace\") as f:\n            code = f.read()")]),
+    dict(id="c12-check-own-decoding", props=["C12"], edits=[("codelimit/commands/check.py", "        code = _read_file(path)", "        with open(path, encoding=\"utf-8\", errors=\"replace\") as f:\n            code = f.read()")]),
     dict(id="c12-check-sorted-unstable", props=["C12"], edits=[("codelimit/commands/check.py", "                key=lambda measurement: measurement.value,\n                reverse=True,", "                key=lambda measurement: (measurement.value, measurement.start.line),\n                reverse=True,")]),
     # ---- C13
     dict(id="c13-optional-as-star", props=["C13"], edits=[("codelimit/common/gsm/operator/Optional.py", "        nfa.accepting.epsilon_transitions = [accepting]", "        nfa.accepting.epsilon_transitions = [nfa.start, accepting]")]),
@@ -108,7 +109,7 @@ MUTANTS += [
     # ---- C16
     dict(id="c16-line-start-off-by-one", props=["C16", "C05"], edits=[("codelimit/common/lexer_utils.py", "                line_start = indices[newline_index] + 1", "                line_start = indices[newline_index] + (1 if newline_index % 7 else 2)")]),
     dict(id="c16-keep-whitespace", props=["C16"], edits=[("codelimit/common/Token.py", "            self.token_type == Text or self.token_type == Whitespace", "            self.token_type == Whitespace")]),
-    dict(id="c16-ge-newline", props=["C16", "C05"], edits=[("codelimit/common/lexer_utils.py", "t[0] > indices[newline_index]:", "t[0] >= indices[newline_index]:")]),
+    dict(id="c16-ge-newline", props=["C16"], edits=[("codelimit/common/lexer_utils.py", "t[0] > indices[newline_index]:", "t[0] >= indices[newline_index]:")]),
     dict(id="c16-location-to-index", props=["C16"], edits=[("codelimit/common/source_utils.py", "    result += max(0, position.column - 1)", "    result += max(0, position.column - 1) if position.line < 40 else position.column")]),
     # ---- C18
     dict(id="c18-delta-sign", props=["C18"], edits=[("codelimit/common/LanguageTotalsDelta.py", "        delta = total_loc - (self._language_totals_previous.loc if self._language_totals_previous else 0)", "        delta = (self._language_totals_previous.loc if self._language_totals_previous else 0) - total_loc")]),
